@@ -53,6 +53,58 @@ def case(root: str, kinds: List[str], terminal: str, pre: bool) -> Optional[str]
     return None
 
 
+OB_LONG = "C03.long chains (symbolic length n, split by the solver)"
+
+
+def long_case(kind: str, n: Any) -> Optional[str]:
+    """A chain of n links of one kind; n is symbolic, the recursion compares its depth with it."""
+    if kind == "yield_from":
+        def g(k: int) -> Any:
+            if k < n:
+                return (yield from g(k + 1))
+            yield "t"
+
+        x: Any = g(0)
+        next(x)
+    else:
+        async def node(k: int) -> Any:
+            if k < n:
+                if kind == "await_wrapper":
+                    return await C.Wrapper(node(k + 1))
+                return await node(k + 1)
+            return await C.trap()
+
+        x = node(0)
+        x.send(None)
+    st = stackscope.extract(x, with_contexts=False)
+    if st.error is not None:
+        return f"error recorded for a legitimate chain: {st.error!r} ({len(st.frames)} frames)"
+    tb = C.traceback_frames(x, long_case.__code__)
+    if [id(f.pyframe) for f in st.frames] != [id(f) for f, _ in tb]:
+        return f"{len(st.frames)} frames extracted, the thrown exception unwinds through {len(tb)}"
+    if [f.lineno for f in st.frames] != [l for _, l in tb]:
+        return "line numbers differ from the traceback"
+    return None
+
+
+def _long_shard(sh: Dict[str, Any]) -> Dict[str, Any]:
+    cex: List[Dict[str, Any]] = []
+    samples: List[Any] = []
+    kind = sh["kind"]
+
+    def harness(e: Engine) -> None:
+        n = e.int("n", sh["lo"], sh["hi"])
+        why = long_case(kind, n)
+        if len(samples) < 1:
+            samples.append({"long_chain_kind": kind, "n(one model value)": e.model().get("n")})
+        if why and len(cex) < 2:
+            cex.append({"long": kind, "n": e.model().get("n"), "why": why})
+
+    eng = Engine(max_seconds=600)
+    eng.explore(harness)
+    return par.shard_result(eng, shard=f"long/{kind}/{sh['lo']}-{sh['hi']}", cex=cex, samples=samples)
+
+
 def kinds_for(root: str) -> List[str]:
     return C.GEN_KINDS if root == "generator" else C.AWAIT_KINDS
 
@@ -84,17 +136,24 @@ def run(rep: Any, tier: str, seed: int) -> None:
     rep.engine_name = f"symx (z3 {z3.get_version_string()})"
     rep.functions = FUNCTIONS
     D = 3 if tier == "quick" else 4
-    rep.bounds = {"depth": f"0..{D}", "await link kinds": C.AWAIT_KINDS, "generator link kinds": C.GEN_KINDS,
+    rep.bounds = {"long chains": "every length 0..130 (thorough 260) of await / await-through-__await__-wrapper / yield-from links, as a z3 Int", "depth": f"0..{D}", "await link kinds": C.AWAIT_KINDS, "generator link kinds": C.GEN_KINDS,
                   "terminals": C.TERMINALS, "roots": C.ROOTS}
-    rep.outside = ["async_generator backport links", "chains deeper than the bound", "custom awaitables implemented in C other than the built-in ones"]
+    rep.outside = ["async_generator backport links", "mixed-kind chains deeper than the bound, homogeneous chains longer than the long-chain bound", "custom awaitables implemented in C other than the built-in ones"]
     rep.assumptions = ["low solver leverage: the solver enumerates a finite product and certifies it complete"]
     shards = [{"root": r, "depth": d} for r in C.ROOTS for d in range(0, D + 1)]
-    res = par.run_shards("harness.c03", "_shard", shards)
-    for c in par.fold(rep, OB, res):
+    hi = 130 if tier == "quick" else 260
+    longs = [{"kind": k, "lo": lo, "hi": min(lo + 43, hi)} for k in ("coro", "await_wrapper", "yield_from") for lo in range(0, hi + 1, 44)]
+    res = par.run_mixed("harness.c03", [("_shard", s_) for s_ in shards] + [("_long_shard", s_) for s_ in longs])
+    for c in par.fold(rep, OB, [r for f, r in res if f == "_shard"]):
         rep.counterexample(OB, c, c["why"])
+    for c in par.fold(rep, OB_LONG, [r for f, r in res if f == "_long_shard"]):
+        rep.counterexample(OB_LONG, c, c["why"])
 
 
 def replay(c: Dict[str, Any]) -> Dict[str, Any]:
+    if "long" in c:
+        why = long_case(c["long"], c["n"])
+        return {"status": "reproduces" if why else "not-reproduced", "detail": why}
     why = case(c["root"], c["kinds"], c["terminal"], c["pre"])
     return {"status": "reproduces" if why else "not-reproduced", "detail": why}
 
